@@ -188,8 +188,9 @@ func r43PixelFormulaShape(c *core.Ctx) {
 
 // armValues evaluates the statements before the corner-of-origin switch and each arm.
 type armEnv struct {
-	common *symEnv
-	arms   map[string]*symEnv // "TopLeft", "BottomLeft"
+	common  *symEnv
+	arms    map[string]*symEnv // "TopLeft", "BottomLeft"
+	renames [][2]string
 }
 
 // cornerArms finds the case analysis on tm.CornerOfOrigin in f: a switch {default: fallthrough; case TopLeft;
@@ -300,8 +301,22 @@ func evalWithCornerSwitch(c *core.Ctx, f *core.Func) *armEnv {
 			continue
 		}
 		env.run([]ast.Stmt{s})
+		// what follows the corner-of-origin decision is computed per arm as well
+		for _, a := range out.arms {
+			a.run([]ast.Stmt{s})
+		}
 	}
 	return out
+}
+
+// newTileArgs finds the column and row expressions of the slippy.NewTile(zoom, col, row) FromNative returns.
+func newTileArgs(c *core.Ctx, f *core.Func) (col, row ast.Expr) {
+	for _, call := range core.CallsIn(f.Pkg.TypesInfo, f.Decl, "github.com/go-spatial/geom/slippy.NewTile") {
+		if len(call.Args) == 3 {
+			col, row = call.Args[1], call.Args[2]
+		}
+	}
+	return
 }
 
 func (e *symEnv) varNamed(n string) lpoly {
@@ -364,6 +379,7 @@ func normaliseAddressingNames(c *core.Ctx, f *core.Func, ae *armEnv) {
 	for _, a := range ae.arms {
 		fix(a)
 	}
+	ae.renames = ren
 }
 
 // R44: FromNative is the inverse of ToNative (per axis and corner convention)
@@ -402,7 +418,17 @@ func r44TileAddressingInverse(c *core.Ctx) {
 		c.Bad(R, "corner-arms", fn.Decl.Pos(), fmt.Sprintf("expected TopLeft and BottomLeft arms in all three functions, found %d/%d/%d", len(F.arms), len(T.arms), len(B.arms)))
 		return
 	}
+	// column and row as FromNative hands them to slippy.NewTile (conversions to uint are transparent)
+	colE, rowE := newTileArgs(c, fn)
 	fx := F.common.varNamed("x")
+	if colE != nil {
+		if p, ok := F.common.eval(colE); ok {
+			fx = p
+			for _, r := range F.renames {
+				fx = pRename(fx, r[0], r[1])
+			}
+		}
+	}
 	tx := T.common.elem["topLeftPt[0]"]
 	okX := false
 	detail := ""
@@ -416,6 +442,14 @@ func r44TileAddressingInverse(c *core.Ctx) {
 	c.Check(R, "column-of-tile-corner-is-the-tile/x", fn.Decl.Pos(), okX, "FromNative.x(ToNative.x(tile)) == tile.X", "the column found for the x of a tile's corner is not that tile's column: "+detail)
 	for _, arm := range []string{"TopLeft", "BottomLeft"} {
 		fy := F.arms[arm].varNamed("y")
+		if rowE != nil {
+			if p, ok := F.arms[arm].eval(rowE); ok {
+				fy = p
+				for _, r := range F.renames {
+					fy = pRename(fy, r[0], r[1])
+				}
+			}
+		}
 		ty := T.arms[arm].elem["topLeftPt[1]"]
 		okY := false
 		detail := "y formulas not found"
